@@ -112,9 +112,10 @@ def handleAc (toks : List String) : String :=
   let (pre, post) := toks.span (· ≠ "|")
   match parseExpr pre, parseExpr (post.drop 1) with
   | some (.app op args), some rhs =>
-    match ACK.ofOp op, (Expr.app op args).width with
-    | some k, some w => if acEquiv k w (.app op args) rhs then "1" else "0"
-    | _, _ => "bad-op"
+    match ACK.ofOp op, (Expr.app op args).width, BK.ofOp op with
+    | some k, some w, _ => if acEquiv k w (.app op args) rhs then "1" else "0"
+    | _, _, some k => if bcEquiv k (.app op args) rhs then "1" else "0"
+    | _, _, _ => "bad-op"
   | _, _ => "bad-op"
 
 /-- `meta <sexpr>` : width / variables / depth / symbolic as the model computes them -/
